@@ -233,9 +233,28 @@ def concrete_args(model, sym_args, dtype=np.float64):
   return jax.tree_util.tree_map(one, sym_args, is_leaf=lambda x: isinstance(x, np.ndarray))
 
 
+def box_assumptions(sym_args, bound=1):
+  """|v| <= bound for every symbolic real input: used only to look for a SECOND, tamer counterexample when the first one
+  did not replay (huge model values drown a genuine difference in floating point); never part of a proof."""
+  out = []
+  for a in jax.tree_util.tree_leaves(sym_args, is_leaf=lambda x: isinstance(x, np.ndarray)):
+    if isinstance(a, np.ndarray) and a.dtype == object:
+      for e in a.reshape(-1):
+        if sj.is_z(e) and e.sort() == z3.RealSort():
+          out += [e >= -bound, e <= bound]
+  return out
+
+
+def open_tree(tree):
+  """Mappings that JAX does not know as containers (e.g. mappingproxy) would be opaque leaves: read them as dicts."""
+  import collections.abc as cabc
+  opaque = lambda l: isinstance(l, cabc.Mapping) and not isinstance(l, dict)
+  return jax.tree_util.tree_map(lambda l: open_tree(dict(l)) if opaque(l) else l, tree, is_leaf=opaque)
+
+
 def max_discrepancy(outA, outB):
   """Largest relative discrepancy between two concrete pytrees; inf if structure/NaN-ness differs."""
-  la, lb = jax.tree_util.tree_leaves(outA), jax.tree_util.tree_leaves(outB)
+  la, lb = jax.tree_util.tree_leaves(open_tree(outA)), jax.tree_util.tree_leaves(open_tree(outB))
   if len(la) != len(lb):
     return float('inf'), 'structure'
   worst, where = 0.0, None
